@@ -9,6 +9,9 @@
 #include "QXmppTransferManager.h"
 
 #include <QBuffer>
+#include <QFile>
+#include <QFileInfo>
+#include <QTemporaryDir>
 
 using namespace sim;
 
@@ -56,6 +59,45 @@ static const char *announceNames[] = { "size_and_hash", "size_only", "hash_only"
 
 class C19Engine : public Engine
 {
+    // accept-by-path mode: the destination file on a real (temporary) directory
+    int m_pathMode = 0;
+    QString m_destPath;
+    std::unique_ptr<QTemporaryDir> m_tmp;
+    void preparePath(const Plan &plan, const QByteArray &file, RunResult &res)
+    {
+        m_pathMode = (int)plan.knob(QStringLiteral("acceptPath"));
+        m_tmp.reset();
+        m_destPath.clear();
+        if (!m_pathMode) {
+            return;
+        }
+        m_tmp = std::make_unique<QTemporaryDir>();
+        m_destPath = m_tmp->filePath(QStringLiteral("received.bin"));
+        if (m_pathMode >= 2) {
+            QFile f(m_destPath);
+            if (f.open(QIODevice::WriteOnly)) {
+                f.write(QByteArray(m_pathMode == 2 ? file.size() / 2 : file.size() + 1 + file.size() / 3, '#'));
+            }
+        }
+        res.faults[m_pathMode == 1 ? QStringLiteral("stored_under_a_fresh_path") : (m_pathMode == 2 ? QStringLiteral("destination_exists_shorter") : QStringLiteral("destination_exists_longer"))]++;
+    }
+    void acceptJob(QXmppTransferJob *j, QIODevice *device)
+    {
+        if (m_pathMode) {
+            j->accept(m_destPath);
+        } else {
+            j->accept(device);
+        }
+    }
+    // what the receiver holds: the destination file in path mode
+    void loadPath(QByteArray &into)
+    {
+        if (m_pathMode) {
+            QFile f(m_destPath);
+            into = f.open(QIODevice::ReadOnly) ? f.readAll() : QByteArray("<destination file missing>");
+        }
+    }
+
 public:
     QString property() const override { return QStringLiteral("C19"); }
     QString describe() const override
@@ -115,6 +157,14 @@ public:
                 k[QStringLiteral("fault")] = 0;
             }
         }
+        {
+            // the receiver stores the file under a path (accept(const QString &)) instead of in a device it was given; the
+            // destination may already exist, shorter or longer than what arrives (own stream, other draws unchanged)
+            Prng rp(derive(seed, "c19path"));
+            if (rp.chance(0.1)) {
+                k[QStringLiteral("acceptPath")] = 1 + (qint64)rp.uniform(3);   // 1 fresh path, 2 shorter file exists, 3 longer file exists
+            }
+        }
         p.ops.append(mkop(QStringLiteral("connect")));
         p.ops.append(mkop(QStringLiteral("pump")));
         p.ops.append(mkop(QStringLiteral("transfer"), {}, {}, (quint32)r.next()));
@@ -125,6 +175,10 @@ public:
     {
         RunResult res;
         Trace tr(verbose);
+        struct RemoveTmp {
+            C19Engine *e;
+            ~RemoveTmp() { e->m_tmp.reset(); }
+        } removeTmp { this };   // after the world (and with it the job's open file) is gone
         {
             SessionWorld w(plan, tr, res);
             QObject ctx;
@@ -140,6 +194,10 @@ public:
             const QByteArray file = content.bytes(size);
             const QByteArray md5 = simcrypto::hash("MD5", file);
             const int nBlocks = (size + block - 1) / block;
+            preparePath(plan, file, res);
+            if (m_pathMode && (fault == 9 || fault == 10)) {
+                fault = 0;   // device faults belong to the device the harness hands over, not to a path
+            }
             const bool sizeAnnounced = announce == 0 || announce == 1, hashAnnounced = announce == 0 || announce == 2;
             // a bit flip can only be noticed through a hash; a device problem only if something is announced
             if (fault == 4 && !hashAnnounced) {
@@ -189,7 +247,7 @@ public:
                     jobError = (int)j->error();
                     tr.log(QStringLiteral("receiver job finished with error %1").arg(jobError));
                 });
-                j->accept(&device);
+                acceptJob(j, &device);
             });
             // everything the client sends to the peer is held for the scripted peer
             QList<QByteArray> toPeer;
@@ -401,6 +459,7 @@ public:
                 }
                 w.pump(nullptr);
                 settle();
+                loadPath(device.data);
                 const bool exact = device.data == file;
                 // what the job says now may differ from what it said when it finished (a later stanza must not turn a failed
                 // transfer into a successful one)
@@ -555,6 +614,9 @@ public:
     // runs on the simulated TCP layer, the scripted stream host speaks SOCKS5 and then delivers the (possibly damaged) bytes
     void runSocks(const Plan &plan, Trace &tr, RunResult &res, SessionWorld &w, const QByteArray &file, const QByteArray &md5, int chunk, int announce, int fault, int faultAt)
     {
+        if (m_pathMode && (fault == 9 || fault == 10)) {
+            fault = 0;
+        }
         TcpNet tcp;
         QObject ctx;
         const bool sizeAnnounced = announce == 0 || announce == 1, hashAnnounced = announce == 0 || announce == 2;
@@ -585,7 +647,7 @@ public:
                 jobError = (int)j->error();
                 tr.log(QStringLiteral("receiver job finished with error %1").arg(jobError));
             });
-            j->accept(&device);
+            acceptJob(j, &device);
         });
         QList<QByteArray> toPeer;
         w.server->onSessionStanza = [&](ServerConn &, const QDomElement &el, const QByteArray &raw) {
@@ -793,6 +855,7 @@ public:
         if (job && jobFinished && job->error() == QXmppTransferJob::NoError) {
             jobError = (int)QXmppTransferJob::NoError;
         }
+        loadPath(device.data);
         const bool exact = device.data == file;
         tr.log(QStringLiteral("socks5 receiver: finished=%1 error=%2 received=%3/%4 exact=%5 (fault %6)").arg(jobFinished).arg(jobError).arg(device.data.size()).arg(file.size()).arg(exact).arg(fault));
         if (jobFinished && jobError == QXmppTransferJob::NoError && !exact) {
@@ -822,6 +885,9 @@ public:
     // stanzas addressed to the other account, and the relay is where the faults happen
     void runTwoClients(const Plan &plan, Trace &tr, RunResult &res, SessionWorld &wa, const QByteArray &file, const QByteArray &md5, int nBlocks, int announce, int fault, int faultAt)
     {
+        if (m_pathMode && (fault == 9 || fault == 10)) {
+            fault = 0;
+        }
         Plan planB = plan;
         planB.sknobs[QStringLiteral("user")] = QStringLiteral("bob");
         planB.sknobs[QStringLiteral("resource")] = QStringLiteral("desk");
@@ -845,7 +911,7 @@ public:
                 inFinished = true;
                 inError = (int)j->error();
             });
-            j->accept(&sink);
+            acceptJob(j, &sink);
         });
         struct Relayed {
             int dir;   // 0: A -> B, 1: B -> A
@@ -958,6 +1024,7 @@ public:
         if (inJob && inFinished && (int)inJob->error() != inError && inJob->error() == QXmppTransferJob::NoError) {
             inError = (int)QXmppTransferJob::NoError;
         }
+        loadPath(sink.data);
         const bool exact = sink.data == file;
         tr.log(QStringLiteral("two clients: sender finished=%1 error=%2, receiver finished=%3 error=%4 got %5/%6 exact=%7").arg(outFinished).arg(outError).arg(inFinished).arg(inError).arg(sink.data.size()).arg(file.size()).arg(exact));
         if (inFinished && inError == QXmppTransferJob::NoError && !exact) {
@@ -986,6 +1053,9 @@ public:
     // two connections by the SHA-1 host name, is activated by the sender and relays the byte stream with faults.
     void runSocksProxy(const Plan &plan, Trace &tr, RunResult &res, SessionWorld &wa, const QByteArray &file, const QByteArray &md5, int chunk, int announce, int fault, int faultAt)
     {
+        if (m_pathMode && (fault == 9 || fault == 10)) {
+            fault = 0;
+        }
         TcpNet tcp;
         tcp.buffered = true;
         Plan planB = plan;
@@ -1040,7 +1110,7 @@ public:
                 inError = (int)j->error();
                 tr.log(QStringLiteral("receiver job finished with error %1").arg(inError));
             });
-            j->accept(&sink);
+            acceptJob(j, &sink);
         });
         struct Relayed {
             int dir;   // 0: A -> B, 1: B -> A, 2: proxy -> A
@@ -1369,6 +1439,7 @@ public:
         if (fault == 7) {
             faultFired = true;
         }
+        loadPath(sink.data);
         const bool exact = sink.data == file;
         tr.log(QStringLiteral("socks5 via proxy: sender finished=%1 error=%2 wrote %3, receiver finished=%4 error=%5 got %6/%7 exact=%8 (fault %9)")
                    .arg(outFinished).arg(outError).arg(fromS.size()).arg(inFinished).arg(inError).arg(sink.data.size()).arg(file.size()).arg(exact).arg(fault));
